@@ -196,16 +196,16 @@ class OverflowAction(Contract):
         lo, hi = range_of(cfg['signed'], cfg['n_word'])
         r = x._overflow_action(new_val, lo, hi)
         frame_ok = all(x.__dict__[k] is before[k] for k in before if k not in ('status',)) and set(x.__dict__) == set(before)
-        return {'r': r, 'status': dict(x.status), 'log': list(cb.log), 'frame_ok': frame_ok}
+        return {'r_vals': [as_real(e) for e in elems(r)], 'r_shape': list(shape_of(r)), 'status': dict(x.status), 'log': sorted(cb.log), 'frame_ok': frame_ok}
 
     def post(self, cfg, inp, obs):
         if obs['exc']:
             return {}
         signed, n, mode = cfg['signed'], cfg['n_word'], cfg['mode']
         lo, hi = range_of(signed, n)
-        out = {'frame': obs['frame_ok'], 'shape': list(shape_of(obs['r'])) == cfg['shape']}
+        out = {'frame': obs['frame_ok'], 'shape': obs['r_shape'] == cfg['shape']}
         rs = [M(r) if cfg['carrier'] == 'objfloat' else M(int_value(r)) for r in inp['r']]
-        for i, (r, o) in enumerate(zip(rs, elems(obs['r']))):
+        for i, (r, o) in enumerate(zip(rs, obs['r_vals'])):
             if cfg['carrier'] == 'objfloat':
                 # un-rounded floats are only ever saturated (|v| >= 2^64 path): clamp, value kept otherwise
                 out['value[%d]' % i] = eq(M(o), ite(r > hi, hi, ite(r < lo, lo, r)))
@@ -367,7 +367,7 @@ class SetVal(Contract):
         frame_ok = all(x.__dict__[k] is before[k] for k in before if k not in ('val', 'real', 'imag', 'vdtype', '_dtype', 'scaled', 'status')) \
             and set(x.__dict__) == set(before) and x.config.__dict__ == cfg_before and x.status is before['status']
         o = obs_fxp(x)
-        o.update(getval=x.get_val(), log=list(cb.log), frame_ok=frame_ok, returns_self=r is x)
+        o.update(getval=x.get_val(), log=sorted(cb.log), frame_ok=frame_ok, returns_self=r is x)
         return o
 
     def post(self, cfg, inp, obs):
